@@ -892,22 +892,30 @@ pub fn decode_on_receive_path(tier: Tier) -> Part {
 /// deterministic outcomes (an error, a panic, a wrong message); a timeout is inconclusive.
 pub fn udp_recv_sequences(property: &'static str, max_len: usize) -> Part {
     let mut part = Part::new(&format!("server/udp-recv-sequences(len<={max_len})"));
-    part.rule = format!("the real chitchat::transport::UdpTransport socket on 127.0.0.1: every sequence of at most {max_len} datagrams over {{empty, 1 byte, the 2 magic bytes, magic + version, 'junk', a valid SYN cut by one byte, a valid ACK cut in the middle, 65,507 zero bytes, a valid tagged SYN, BadCluster}} followed by a final valid tagged SYN, sent from a plain UDP socket; `recv()` on the real socket must yield exactly the valid messages of the sequence, in order (garbage skipped, no error, no panic); non-trivial = sequences containing garbage");
+    part.rule = format!("the real chitchat::transport::UdpTransport socket on 127.0.0.1: every sequence of at most {max_len} datagrams over {{empty, 1 byte, the 2 magic bytes, magic + version, 'junk', a valid SYN cut by one byte, a valid ACK cut in the middle, 65,507 zero bytes, a valid tagged SYN, BadCluster, a valid SYN followed by one more byte}} followed by a final valid tagged SYN, sent from a plain UDP socket; `recv()` on the real socket must yield exactly the valid messages of the sequence, in order (garbage skipped, no error, no panic); non-trivial = sequences containing garbage");
     let tagged = |tag: &str| crate::codec::encode(&Msg::Syn { digest: vec![DigestEntry { id: peer_id(), heartbeat: 7, gc: 0, mv: 0 }], cluster_id: tag.to_string() });
     let valid_syn = tagged("c");
     let valid_ack = crate::codec::encode(&Msg::Ack { ops: vec![Op::Node { id: peer_id(), gc: 0, from: 0 }, Op::Kv { key: "k".into(), value: "v".repeat(40), version: 1, status: 0 }] });
-    // (name, bytes, is a valid message)
-    let alphabet: Vec<(&'static str, Vec<u8>, bool)> = vec![
-        ("empty", vec![], false),
-        ("one-byte", valid_syn[..1].to_vec(), false),
-        ("magic-only", valid_syn[..2].to_vec(), false),
-        ("magic+version", valid_syn[..3].to_vec(), false),
-        ("junk", b"junk".to_vec(), false),
-        ("syn-cut-by-one", valid_syn[..valid_syn.len() - 1].to_vec(), false),
-        ("ack-cut-in-the-middle", valid_ack[..valid_ack.len() / 2].to_vec(), false),
-        ("65507-zeros", vec![0u8; 65_507], false),
-        ("valid-syn", tagged("mid-sequence"), true),
-        ("bad-cluster", crate::codec::encode(&Msg::BadCluster), true),
+    // (name, bytes, the message recv() must yield for it — None: nothing, the datagram is skipped)
+    let trailing = {
+        let mut b = tagged("with-a-trailing-byte");
+        b.push(0x2a);
+        b
+    };
+    let alphabet: Vec<(&'static str, Vec<u8>, Option<Vec<u8>>)> = vec![
+        ("empty", vec![], None),
+        ("one-byte", valid_syn[..1].to_vec(), None),
+        ("magic-only", valid_syn[..2].to_vec(), None),
+        ("magic+version", valid_syn[..3].to_vec(), None),
+        ("junk", b"junk".to_vec(), None),
+        ("syn-cut-by-one", valid_syn[..valid_syn.len() - 1].to_vec(), None),
+        ("ack-cut-in-the-middle", valid_ack[..valid_ack.len() / 2].to_vec(), None),
+        ("65507-zeros", vec![0u8; 65_507], None),
+        ("valid-syn", tagged("mid-sequence"), Some(tagged("mid-sequence"))),
+        ("bad-cluster", crate::codec::encode(&Msg::BadCluster), Some(crate::codec::encode(&Msg::BadCluster))),
+        // a datagram longer than the message it starts with: the code under test hands the message
+        // up (it does not look at what follows); skipping it is accepted too, an error is not
+        ("valid-syn+trailing-byte", trailing, Some(tagged("with-a-trailing-byte"))),
     ];
     let mut seqs: Vec<Vec<usize>> = vec![vec![]];
     let mut layer: Vec<Vec<usize>> = vec![vec![]];
@@ -940,31 +948,38 @@ pub fn udp_recv_sequences(property: &'static str, max_len: usize) -> Part {
             let mut notes = vec![];
             for (si, seq) in seqs.iter().enumerate() {
                 ran += 1;
-                if seq.iter().any(|i| !alpha[*i].2) {
+                if seq.iter().any(|i| alpha[*i].2.is_none()) {
                     with_garbage += 1;
                 }
                 let final_syn = crate::codec::encode(&Msg::Syn { digest: vec![], cluster_id: format!("final-{si}") });
                 let names: Vec<&str> = seq.iter().map(|i| alpha[*i].0).collect();
                 let replay = json!({"engine":"server","udp_recv": names});
-                let mut expected: Vec<Vec<u8>> = vec![];
+                // (expected message, optional): an optional one may also be skipped by the socket
+                let mut expected: Vec<(Vec<u8>, bool)> = vec![];
                 for i in seq {
                     if client.send_to(&alpha[*i].1, addr).await.is_err() {
                         notes.push(format!("client could not send `{}` (inconclusive)", alpha[*i].0));
-                    } else if alpha[*i].2 {
-                        expected.push(alpha[*i].1.clone());
+                    } else if let Some(m) = &alpha[*i].2 {
+                        expected.push((m.clone(), alpha[*i].0 == "valid-syn+trailing-byte"));
                     }
                 }
                 let _ = client.send_to(&final_syn, addr).await;
-                expected.push(final_syn);
+                expected.push((final_syn, false));
                 let mut bad: Option<(String, String)> = None;
                 let mut lost = false;
-                for (k, want) in expected.iter().enumerate() {
+                let mut k = 0usize;
+                while k < expected.len() {
                     match tokio::time::timeout(Duration::from_secs(3), sock.recv()).await {
                         Ok(Ok((_, m))) => {
-                            if real::real_encode(&m) != *want {
+                            let got = real::real_encode(&m);
+                            while k < expected.len() && expected[k].1 && got != expected[k].0 {
+                                k += 1;
+                            }
+                            if k >= expected.len() || got != expected[k].0 {
                                 bad = Some((format!("after datagrams {names:?} the socket's message #{k} is not the valid message that was sent"), "udp-recv-wrong-message".into()));
                                 break;
                             }
+                            k += 1;
                         }
                         Ok(Err(e)) => {
                             bad = Some((format!("recv() returned a fatal error after datagrams {names:?}: {e:#}"), "udp-recv-fatal-on-garbage".into()));
